@@ -77,6 +77,14 @@ func RunE2E(o *drv.Out) {
 				phase   lib.Phase
 				post    func(qc *lib.QuorumCertificate)
 			}
+			// applied BEFORE signing: the signers honestly sign the deviated content. +2/3 of this very committee
+			// signed the certificate — for ANOTHER chain / network / height (validators commonly sit on several
+			// committees with one key): binding the certificate to this chain is the gate's job
+			pre := map[string]func(q *lib.QuorumCertificate){
+				"signed-for-other-chain":   func(q *lib.QuorumCertificate) { q.Header.ChainId++ },
+				"signed-for-other-network": func(q *lib.QuorumCertificate) { q.Header.NetworkId++ },
+				"signed-for-other-height":  func(q *lib.QuorumCertificate) { q.Header.Height++ },
+			}
 			pv := lib.Phase_PRECOMMIT_VOTE
 			variants := []variant{
 				{"partial", quorum(true), pv, nil},
@@ -100,10 +108,17 @@ func RunE2E(o *drv.Out) {
 				}},
 				{"bitmap-len", quorum(false), pv, func(q *lib.QuorumCertificate) { q.Signature.Bitmap = append(q.Signature.Bitmap, 0) }},
 				{"nil-results", quorum(false), pv, func(q *lib.QuorumCertificate) { q.Results = nil }},
+				{"signed-for-other-chain", quorum(false), pv, nil},
+				{"signed-for-other-network", quorum(false), pv, nil},
+				{"signed-for-other-height", quorum(false), pv, nil},
 				{"valid", quorum(false), pv, nil}, // last: commits
 			}
 			for _, v := range variants {
 				qc := net.Certify(vs, block, results, v.signers, v.phase, rc, a.Key)
+				if f := pre[v.name]; f != nil {
+					f(qc)
+					qc.Signature = net.Aggregate(vs, qc.SignBytes(), v.signers)
+				}
 				signedPay := payStr(qc.Header, qc.BlockHash, qc.ResultsHash, qc.ProposerKey)
 				var parts []string
 				for _, vi := range v.signers {
